@@ -129,7 +129,10 @@ pub fn generate(prop: &str, tier: &str, seed: u64, rec: &mut Rec) {
         .and_then(|s| s.parse().ok())
         .unwrap_or(if thorough { 20 } else { 1 });
     match prop {
-        "C01" => gen_c01(rec, &mut rng, 500 * scale, false),
+        "C01" => {
+            gen_c01(rec, &mut rng, 500 * scale, false);
+            gen_c01_exhaustive(rec, thorough);
+        }
         "C08" => {
             gen_c01(rec, &mut rng, 1500 * scale, true);
             gen_c08_exhaustive(rec, if thorough { 4 } else { 3 });
@@ -356,6 +359,83 @@ fn gen_c01(rec: &mut Rec, rng: &mut Rng, cases: u64, malformed: bool) {
         rec.op(&format!("init {}", hex0(&doc)));
         let n_ops = if big { 30 } else { rng.range(5, 60) as usize };
         read_history(rec, rng, n_ops, &interned, big);
+    }
+}
+
+/// small-scope exhaustive: every document of a small grammar (depth <= 2, at most two children,
+/// keys "a"/"b" and the duplicate-key variant) x every sequence of two reads on the root out of
+/// {element / key / value by index 0, 1, 2; property a, b, c}, followed by reads below each child
+fn gen_c01_exhaustive(rec: &mut Rec, thorough: bool) {
+    let leaves: Vec<Vec<u8>> = vec![vec![0x01], vec![0xa1, 0x61], vec![0xc0]];
+    let arr_of = |kids: &[&Vec<u8>]| -> Vec<u8> {
+        let mut v = vec![0x90 + kids.len() as u8];
+        for k in kids {
+            v.extend_from_slice(k);
+        }
+        v
+    };
+    let map_of = |keys: &[u8], kids: &[&Vec<u8>]| -> Vec<u8> {
+        let mut v = vec![0x80 + kids.len() as u8];
+        for (i, k) in kids.iter().enumerate() {
+            v.extend_from_slice(&[0xa1, keys[i]]);
+            v.extend_from_slice(k);
+        }
+        v
+    };
+    // children of the root
+    let mut level1: Vec<Vec<u8>> = leaves.clone();
+    if thorough {
+        level1.push(arr_of(&[]));
+        level1.push(map_of(b"", &[]));
+        for a in &leaves {
+            level1.push(arr_of(&[a]));
+            level1.push(map_of(b"a", &[a]));
+            for b in &leaves {
+                level1.push(arr_of(&[a, b]));
+                level1.push(map_of(b"ab", &[a, b]));
+            }
+        }
+    } else {
+        for a in &leaves {
+            level1.push(arr_of(&[a]));
+            level1.push(map_of(b"a", &[a]));
+        }
+    }
+    let mut docs: Vec<Vec<u8>> = vec![arr_of(&[]), map_of(b"", &[])];
+    for a in &level1 {
+        docs.push(arr_of(&[a]));
+        docs.push(map_of(b"a", &[a]));
+        for b in &level1 {
+            docs.push(arr_of(&[a, b]));
+            docs.push(map_of(b"ab", &[a, b]));
+            docs.push(map_of(b"aa", &[a, b])); // duplicate key: the first one wins
+        }
+    }
+    let ops = ["idx {} 0", "idx {} 1", "idx {} 2", "key {} 0", "key {} 1", "prop {} 61", "prop {} 62", "prop {} 63"];
+    for doc in &docs {
+        for i in 0..ops.len() {
+            for j in 0..ops.len() {
+                rec.case("c01x");
+                rec.bump("exhaustive:c01");
+                rec.op(&format!("init {}", hex0(doc)));
+                let r = rec.op("root");
+                let h = match r.split_whitespace().nth(1) {
+                    Some(h) if r.starts_with("arr") || r.starts_with("obj") => h.to_string(),
+                    _ => continue,
+                };
+                let a1 = rec.op(&ops[i].replace("{}", &h));
+                let a2 = rec.op(&ops[j].replace("{}", &h));
+                for sub in [a1, a2] {
+                    let t: Vec<&str> = sub.split_whitespace().collect();
+                    if t.len() == 3 && (t[0] == "arr" || t[0] == "obj") {
+                        rec.op(&format!("idx {} 1", t[1]));
+                        rec.op(&format!("prop {} 61", t[1]));
+                        rec.op(&format!("idx {} 0", t[1]));
+                    }
+                }
+                rec.op(&format!("len {}", h));
+            }
+        }
     }
 }
 
